@@ -343,7 +343,7 @@ def main():
             == ["FIRST", "SECOND", "THIRD", "PROG", "SIXTH"]):
         failures.append(f"good listing: {str(res)[:300]}")
     checked += 1
-    if not (res[0] == "ok" and res[3][0][3] == SAMPLES[1][140:]):
+    if not (res[0] == "ok" and res[3][0][3] == b""):
         failures.append("sample bytes of FIRST")
     checked += 1
     if not (res[0] == "ok" and res[4] == 6 * 24):
